@@ -76,14 +76,14 @@ theorem keyVerify_true (C : Crypto) (c : Cert) (m : Method) (sig data : Bytes) (
     · cases h
   · unfold ecdsaVerify at h
     split at h
-    · cases h
+    · simp at h
     · simp only [Except.ok.injEq] at h
       exact ⟨_, _, EncFn.id, h⟩
   · split at h
     · split at h
       · unfold ecdsaVerify at h
         split at h
-        · cases h
+        · simp at h
         · simp only [Except.ok.injEq] at h
           exact ⟨_, _, EncFn.hash _ EncFn.id, h⟩
       · cases h
@@ -95,9 +95,9 @@ theorem keyVerify_true (C : Crypto) (c : Cert) (m : Method) (sig data : Bytes) (
   · simp only [Except.ok.injEq] at h
     exact ⟨_, _, EncFn.id, h⟩
   · split at h
-    · cases h
+    · simp at h
     · split at h
-      · cases h
+      · simp at h
       · simp only [Except.ok.injEq] at h
         exact ⟨_, _, EncFn.id, h⟩
   · cases h
@@ -247,17 +247,28 @@ theorem clientGetKeyFromChain_ok (s : Settings) (ver : Nat) (chain : Chain) (c :
 
 /-! ### TLS 1.3 client: server CertificateVerify without delegated credential -/
 
+theorem liftExc13_ok {α : Type} (r : Except Reject α) (x : α) (h : liftExc13 r = .ok x) : r = .ok x := by
+  unfold liftExc13 at h
+  split at h
+  · simp only [Except.ok.injEq] at h; subst h; rfl
+  · cases h
+
 theorem verifyCV13Client_ok (C : Crypto) (s : Settings) (chSig : List SchemeId) (chain : Chain)
     (certBytes : Bytes) (t : Transcript) (prf : HashName) (cv : CertVerify) (ch : Chain)
     (h : verifyCV13Client C s chSig chain certBytes [] t prf cv = .ok ch) :
     ch = chain ∧ ∃ c rest sid, chain = c :: rest ∧ cv.scheme = some sid ∧ sid ∈ chSig ∧
       compatible c 4 sid = true ∧ Proved C c.key (tbs13 tagServer (digest C prf t)) cv.signature := by
   unfold verifyCV13Client at h
+  have h := liftExc13_ok _ _ h
+  unfold verifyCV13ClientRaw at h
   simp only [bind, Except.bind, pure, Except.pure] at h
   cases hsch : cv.scheme with
   | none => simp [hsch, throw, throwThe, MonadExceptOf.throw] at h
   | some sid =>
     simp only [hsch] at h
+    by_cases hadv : sid ∈ chSig ++ s.dcSigAlgs
+    case neg => simp [hadv, throw, throwThe, MonadExceptOf.throw] at h
+    simp only [hadv, not_true_eq_false, if_false] at h
     cases hvb : calcVerifyBytes C 4 t (some sid) prf tagServer false with
     | error e => simp [hvb] at h
     | ok ctx =>
@@ -353,11 +364,16 @@ theorem verifyCV13Client_dc_ok (C : Crypto) (s : Settings) (chSig : List SchemeI
       Proved C c.key (dcContext certBytes dc.credBytes dc.algorithm) dc.signature ∧
       Proved C dc.dcKey.key (tbs13 tagServer (digest C prf t)) cv.signature := by
   unfold verifyCV13Client at h
+  have h := liftExc13_ok _ _ h
+  unfold verifyCV13ClientRaw at h
   simp only [bind, Except.bind, pure, Except.pure] at h
   cases hsch : cv.scheme with
   | none => simp [hsch, throw, throwThe, MonadExceptOf.throw] at h
   | some sid =>
     simp only [hsch] at h
+    by_cases hadv : sid ∈ chSig ++ s.dcSigAlgs
+    case neg => simp [hadv, throw, throwThe, MonadExceptOf.throw] at h
+    simp only [hadv, not_true_eq_false, if_false] at h
     cases hvb : calcVerifyBytes C 4 t (some sid) prf tagServer false with
     | error e => simp [hvb] at h
     | ok ctx =>
